@@ -741,7 +741,7 @@ def custom_run(pid, tier, seed, replay=None):
         lines = [x["case"] if isinstance(x, dict) else x for x in rp.get("cases", [])] or ([rp["case"]] if "case" in rp else [])
         batches.append(("replay", None, lines))
     else:
-        nb = 1 if tier == "quick" else 6
+        nb = 1 if tier == "quick" else 5
         for b in range(nb):
             shapes = gen_shapes(rng, 40 if tier == "quick" else 90) if b == 0 else \
                 [s for s in gen_shapes(rng, 110)[len(CORPUS_SHAPES):]]
